@@ -13,7 +13,7 @@ T = "rust/lance/src/dataset/transaction.rs"
 UNIT = dict(
     engine="kani-transplant",
     deps='vstd = { path = "/verif/models/vstd" }',
-    encoded={F: ["TransactionRebase::check_txn (dispatch)", "check_delete_txn", "check_update_txn", "check_update_mem_wal_state_not_modify_same_mem_wal"],
+    encoded={F: ["TransactionRebase::check_txn (dispatch)", "check_delete_txn", "check_update_txn", "check_update_mem_wal_state_txn", "check_update_mem_wal_state_not_modify_same_mem_wal"],
              T: ["enum Operation (variant list, cross-checked against the model)"]},
     models=["Operation -> enum with the same variants carrying only the fields these functions read (fragment lists, removed ids, rewrite groups, replacements, MemWal lists); Transaction -> {operation}",
             "Fragment -> {id, files: abstract identity of its data-file list, deletion_file: Option<abstract id>}; MemWal -> {id}",
@@ -39,7 +39,7 @@ def build(repo, subs):
         raise X.Inconclusive(f"Operation variants changed: {sorted(set(found))}")
     impl = X.extract_item(src, r"^impl<'a> TransactionRebase<'a> \{")
     fns = {n: X.extract_item(impl, r"^\s*(pub )?fn %s\b" % n) for n in
-           ("check_txn", "check_delete_txn", "check_update_txn", "check_update_mem_wal_state_not_modify_same_mem_wal")}
+           ("check_txn", "check_delete_txn", "check_update_txn", "check_update_mem_wal_state_txn", "check_update_mem_wal_state_not_modify_same_mem_wal")}
     f = fns["check_update_mem_wal_state_not_modify_same_mem_wal"]
     f = subs.rx(f, r"Error::Internal \{\s*message: format!\(.*?\),\s*location: location!\(\),\s*\}", "Error::Internal", flags=re.S, why="error payload dropped")
     f = subs.rx(f, r"Error::NotSupported \{\s*source: format!\(.*?\)\s*\.into\(\),\s*location: location!\(\),\s*\}", "Error::NotSupported", flags=re.S, why="error payload dropped")
@@ -77,4 +77,4 @@ STUBS = "\n".join(
     f"    fn {n}(&mut self, _o: &Transaction, _v: u64) -> Result<()> {{ vnd::model_bound(false); Ok(()) }}"
     for n in ("check_create_index_txn", "check_rewrite_txn", "check_overwrite_txn", "check_append_txn", "check_data_replacement_txn",
               "check_merge_txn", "check_restore_txn", "check_reserve_fragments_txn", "check_project_txn", "check_update_config_txn",
-              "check_update_mem_wal_state_txn", "check_add_bases_txn"))
+              "check_add_bases_txn"))
